@@ -11,8 +11,8 @@
 EXTENDS StormFfi, Json, IOUtils, TLCExt
 
 Rec == ndJsonDeserialize(IOEnv.TRACE)
-VARIABLES tl, tpend
-tvars == <<vars, tl, tpend>>
+VARIABLES tl, tpend, tkind
+tvars == <<vars, tl, tpend, tkind>>
 
 \* the handle the pending call of thread t is going to return (see NextId in StormFfi)
 TrNextId(t) ==
@@ -21,7 +21,7 @@ TrNextId(t) ==
     THEN Rec[CHOOSE j \in W : Rec[j].ev = "Ret" /\ Rec[j].th = t].ret
     ELSE 0
 
-TInit == Init /\ tl = 1 /\ tpend = [t \in Threads |-> FALSE]
+TInit == Init /\ tl = 1 /\ tpend = [t \in Threads |-> FALSE] /\ tkind = "seq"
 
 Ev == Rec[tl]
 Advance == tl' = tl + 1 /\ TLCSet(1, Max(TLCGet(1), tl + 1))
@@ -37,13 +37,14 @@ T_Reset ==
     /\ vlast' = [t \in Threads |-> "ok"]
     /\ vclosed' = {}
     /\ tpend' = [t \in Threads |-> FALSE]
+    /\ tkind' = Ev.kind
     /\ Advance
 
 T_Inv ==
     /\ Ev.ev = "Inv" /\ ~tpend[Ev.th]
     /\ Invoke(Ev.th, Ev.fn, Ev.h, Ev.name, Ev.n1, IF Ev.fn = "OpenArchive" THEN 16 ELSE Ev.n2, Ev.dat)
     /\ tpend' = [tpend EXCEPT ![Ev.th] = TRUE]
-    /\ Advance
+    /\ Advance /\ UNCHANGED tkind
 
 ToSet(q) == {q[i] : i \in 1..Len(q)}
 \* ---- P-conjuncts on a returned call ------------------------------------------------------------
@@ -58,19 +59,33 @@ RustAgrees(e) ==
       [] e.rres \in {"yes", "no"}  -> (e.ret = 1) = (e.rres = "yes")
       [] e.rres \in {"rd_ok", "rd_fail", "rd_none"} -> (e.ret > 0) = (e.rres = "rd_ok")   \* OpenFileEx / ExtractFile
       [] OTHER -> TRUE
+RetOk(e) ==
+    /\ e.st = "ok"                        \* no hang, abort or panic
+    /\ e.canary                           \* nothing written outside the caller's buffer
+    /\ vret[e.th].fn = e.fn
+    /\ e.ret = vret[e.th].ret
+    /\ OutMatches(e, vret[e.th])
+    /\ RustAgrees(e)
+Why(e) == IF ~e.canary THEN "canary" ELSE IF e.ret # vret[e.th].ret THEN "ret"
+          ELSE IF ~OutMatches(e, vret[e.th]) THEN "out" ELSE IF ~RustAgrees(e) THEN "rust" ELSE "other"
 T_Ret ==
     /\ Ev.ev = "Ret" /\ tpend[Ev.th] /\ vpc[Ev.th] = "Idle"
-    /\ Ev.st = "ok"                       \* no hang, abort or panic
-    /\ Ev.canary                          \* nothing written outside the caller's buffer
-    /\ vret[Ev.th].fn = Ev.fn
-    /\ Ev.ret = vret[Ev.th].ret
-    /\ OutMatches(Ev, vret[Ev.th])
-    /\ RustAgrees(Ev)
+    /\ RetOk(Ev)
     /\ IF Ev.rres = "rd_fail" THEN PrintT(<<"DRIFT", tl, Ev.fn \o ": the Rust API cannot read a file of the session either (wow-mpq)">>) ELSE TRUE
     /\ IF Ev.err = vret[Ev.th].err THEN TRUE
        ELSE PrintT(<<"DRIFT", tl, Ev.fn \o ": last error " \o Ev.err \o ", model " \o vret[Ev.th].err>>)
     /\ tpend' = [tpend EXCEPT ![Ev.th] = FALSE]
-    /\ Advance /\ UNCHANGED vars
+    /\ Advance /\ UNCHANGED <<vars, tkind>>
+\* Single-thread histories are deterministic: a returned call whose observation differs from the model's
+\* result is reported (BAD) and the history continues from the MODEL's state, so that the remaining events
+\* are examined too (the check counts only the first BAD of a history for the verdict; later ones may be
+\* consequences and are listed as secondary).  Hangs / aborts end the process and stay unexplained.
+T_RetBad ==
+    /\ Ev.ev = "Ret" /\ tkind = "seq" /\ tpend[Ev.th] /\ vpc[Ev.th] = "Idle"
+    /\ Ev.st = "ok" /\ vret[Ev.th].fn = Ev.fn /\ ~RetOk(Ev)
+    /\ PrintT(<<"BAD", tl, Why(Ev)>>)
+    /\ tpend' = [tpend EXCEPT ![Ev.th] = FALSE]
+    /\ Advance /\ UNCHANGED <<vars, tkind>>
 
 \* the Rust API's view of a writable archive after flush / compact replaces the model's session map
 \* (what the Rust API itself does with the file is C06's business, not C19's)
@@ -82,13 +97,13 @@ T_Sync ==
                ELSE PrintT(<<"DRIFT", tl, "Rust API view after flush/compact differs from the session map">>)
        ELSE UNCHANGED varch
     /\ Advance
-    /\ UNCHANGED <<vdisk, vcap, vlist, vfiles, vfinds, vnext, vlock, vpc, vfr, vret, vlast, vclosed, tpend>>
+    /\ UNCHANGED <<vdisk, vcap, vlist, vfiles, vfinds, vnext, vlock, vpc, vfr, vret, vlast, vclosed, tpend, tkind>>
 
 T_Step == /\ tl <= Len(Rec)
           /\ \E t \in Threads : tpend[t] /\ vpc[t] # "Idle" /\ Step(t)
-          /\ UNCHANGED <<tl, tpend>>
+          /\ UNCHANGED <<tl, tpend, tkind>>
 
-TNext == \/ (tl <= Len(Rec) /\ (T_Reset \/ T_Inv \/ T_Ret \/ T_Sync))
+TNext == \/ (tl <= Len(Rec) /\ (T_Reset \/ T_Inv \/ T_Ret \/ T_RetBad \/ T_Sync))
          \/ T_Step
 
 ASSUME TLCSet(1, 1)
